@@ -52,7 +52,8 @@ Agrees(e) ==
     [] e.l = "c_recv"      -> CASE e.k = "recv"   -> pc'[e.p] = "c_recv"
                                 [] e.k = "closed" -> pc'[e.p] = "c_unsub" /\ subCh[cs[e.p]].closed
                                 [] OTHER          -> pc'[e.p] = "c_unsub"
-    [] e.l = "c_use"       -> pc'[e.p] = (CASE e.k = "poll" -> "g_lock" [] e.k = "uninstall" -> "u_lock" [] OTHER -> "c_next")
+    [] e.l = "c_use"       -> pc'[e.p] = (CASE e.k = "poll" -> "g_lock" [] e.k = "uninstall" -> "u_lock" [] e.k = "xuninstall" -> "xu_lock" [] OTHER -> "c_next")
+    [] e.l = "xu_lock"     -> fx'[e.p] = e.sub /\ found'[e.p] = e.ok
     [] e.l = "u_lock"      -> found'[e.p] = e.ok
     [] e.l = "co_sel"      -> CASE e.k = "ev"     -> pc'[e.p] \in {"co_sel", "co_ev"} /\ subCh'[e.sub].buf < subCh[e.sub].buf
                                 [] e.k = "closed" -> pc'[e.p] = "co_closed"
